@@ -67,4 +67,14 @@ TEXT = {
         "level_text": "Every record goirc hands to an installed capturing logger (all levels; format, formatted text and each argument) is searched for the generated password in normal and failing sessions (dial error, write error at the PASS line, EOF, refusal) with reconnects; exactly one masked record per PASS line written is required.",
         "level_note": "Only the complete password is searched for; partial disclosure is outside the statement.",
     },
+    "C06": {
+        "technique": "property-based fault injection (rapid): configuration x session x coinciding-endings generator with a scripted socket; counting oracle on lifecycle events and Connected() samples",
+        "level_text": "Every way a connection can end (Close from 1-4 goroutines, EOF, read error, write error, context cancellation, read/write faults armed at the k-th call) is generated singly and in coinciding pairs/triples released from a barrier or staggered, over all configuration bits and with Connect called again at drawn points; REGISTER must have completed exactly once when Connect returns, DISCONNECTED must fire exactly once per established connection, Connected() must agree inside the handlers, refused/failed Connects must fire nothing and leave the live connection working.",
+        "level_note": "Fault moments are sampled (k-th call, on release, staggered by yields), schedules perturbed not controlled. The scripted socket's own Close never fails.",
+    },
+    "C07": {
+        "technique": "property-based fault injection (rapid): backlog x sender x server-reading x cause x reconnect-origin x cycles generator; bounded-time completion, per-connection goroutine-leak and fresh-connection oracles",
+        "level_text": "Inbound backlogs up to ~400 lines, handlers that are slow / emit up to 10 lines / query Connected(), up to 4 user goroutines sending hundreds of lines, a server that reads fast, slowly or not at all, flood control on or off, six disconnect causes, reconnect from inside the DISCONNECTED handler or from another goroutine, up to 5 cycles: DISCONNECTED and every Close must complete within the bound, the connection's goroutines (identified by receiver pointer in the stack dump) must all exit, and each reconnect must yield a connection that stays up, registers with the current nick, answers PING, has a reset tracker and receives nothing stale.",
+        "level_note": "'Bounded' = 20 s (typical milliseconds). User goroutines left blocked in a send on a dead connection are not promised anything and are not checked. Liveness is decided as bounded-time safety; a dead-lock that needs a rare interleaving can be missed.",
+    },
 }
